@@ -25,6 +25,35 @@ theorem certType_eq (d : DN) (k : CType) : certType d = some k ↔ idAttrs d = [
   certTypeLoop_none d k
 
 
+theorem blobHasCritical_false_iff (el : List FutExt) :
+    blobHasCritical el = false ↔ ∀ e ∈ el, e.critical = false := by
+  induction el with
+  | nil => simp [blobHasCritical]
+  | cons e r ih =>
+    unfold blobHasCritical
+    cases h : e.critical <;> simp [h, ih]
+
+theorem hasCritical_false_iff (l : List (List FutExt)) :
+    hasCriticalFutureExtension l = false ↔ ∀ el ∈ l, ∀ e ∈ el, e.critical = false := by
+  induction l with
+  | nil => simp [hasCriticalFutureExtension]
+  | cons el r ih =>
+    unfold hasCriticalFutureExtension
+    cases h : blobHasCritical el
+    · have := (blobHasCritical_false_iff el).1 h
+      simp only [Bool.false_eq_true, ↓reduceIte, ih, List.mem_cons, forall_eq_or_imp]
+      exact ⟨fun h2 => ⟨this, h2⟩, fun h2 => h2.2⟩
+    · have : ¬ ∀ e ∈ el, e.critical = false := by
+        rw [← blobHasCritical_false_iff, h]; simp
+      simp only [↓reduceIte, Bool.true_eq_false, false_iff]
+      intro hall
+      exact this (hall el (by simp))
+
+/-- the code's double loop finds nothing ⇔ the declarative rule holds (ANY element, ANY sub-extension) -/
+@[simp] theorem noUnknownCritical_iff (c : Cert) : NoUnknownCritical c ↔ c.critFuture = false := by
+  unfold NoUnknownCritical Cert.critFuture
+  exact (hasCritical_false_iff c.futureExts).symm
+
 def PositionOk (c : Cert) (depth : Nat) : Prop :=
   (depth = 0 ∧ LeafProfile c) ∨ AuthorityProfile c (depth - 1)
 
